@@ -35,8 +35,13 @@ JudgeC04 ==
   LET o == Recs[i].o
       u == Strip(G, o.w)
       inl == InL(G, o.en, u)
+      \* with ordered choice the grammar denotes a subset of the context-free reading (an earlier
+      \* alternative that succeeds locally wins); only "accepted => in the context-free language"
+      \* is required there
+      hasoc == \E n \in Nodes(G) : K(G, n) = "oc"
   IN \/ ~Returned(o)
      \/ (o.diags = <<>>) = inl
+     \/ (hasoc /\ inl)
      \/ Say("C04", IF inl THEN "spurious_diagnostic" ELSE "silent_accept")
 
 JudgeC06 ==
